@@ -203,6 +203,14 @@ Proof.
       * assumption.
 Qed.
 
+Lemma more_dims_val isres s1 s2 :
+  sv_bcast_more_dims (VBool isres) (VTuple (map VInt s1)) (VTuple (map VInt s2)) =
+  Ok (VBool (isres && (Z.of_nat (length s2) <? Z.of_nat (length s1)))).
+Proof.
+  unfold sv_bcast_more_dims. destruct isres; cbn; [|reflexivity].
+  rewrite !map_length, Z.gtb_ltb. reflexivity.
+Qed.
+
 Theorem validator_broadcast_spec_proof :
   forall s1 s2 : list Z,
     match np_broadcast s1 s2 with
@@ -210,7 +218,7 @@ Theorem validator_broadcast_spec_proof :
     | None => v_broadcast_shape false s1 s2 = Raise ValueError
     end.
 Proof.
-  intros s1 s2. unfold np_broadcast, v_broadcast_shape.
+  intros s1 s2. unfold np_broadcast, v_broadcast_shape. rewrite more_dims_val. cbn [andb bind truthy].
   pose proof (bcast_rev_spec (rev s1) (rev s2)) as H.
   destruct (bc_rev (rev s1) (rev s2)) as [t|].
   - destruct H as [H1 H2]. rewrite H1. cbn. rewrite H2. reflexivity.
@@ -237,25 +245,30 @@ Proof.
     + assumption.
 Qed.
 
-Theorem validator_broadcast_to_partial_proof :
+Lemma bct_rev_len a b : bct_rev a b = true -> (length a <= length b)%nat.
+Proof.
+  revert b; induction a as [|x a IH]; intros [|y b]; cbn; try discriminate; try lia.
+  rewrite andb_true_iff. intros [_ H]. specialize (IH b H). lia.
+Qed.
+
+(* since 7dd4784 the guard `is_result and len(shape1) > len(shape2)` precedes the zip: the validator
+   now decides exactly as numpy.broadcast_to for EVERY pair of shapes *)
+Theorem validator_broadcast_to_spec_proof :
   forall s target : list Z,
-    (length s <= length target)%nat ->
     match np_broadcast_to s target with
     | Some t => v_broadcast_shape true s target = Ok t
     | None => v_broadcast_shape true s target = Raise ValueError
     end.
 Proof.
-  intros s target Hl. unfold np_broadcast_to, v_broadcast_shape.
-  pose proof (bcast_to_rev_spec (rev s) (rev target)) as H. rewrite !rev_length in H. specialize (H Hl).
-  destruct (bct_rev (rev s) (rev target)).
-  - destruct H as [H1 H2]. rewrite H1. cbn. rewrite H2. cbn. rewrite rev_involutive. reflexivity.
-  - rewrite H. reflexivity.
+  intros s target. unfold np_broadcast_to, v_broadcast_shape. rewrite more_dims_val. cbn [andb].
+  destruct (Z.ltb_spec (Z.of_nat (length target)) (Z.of_nat (length s))) as [Hm|Hm]; cbn [bind truthy].
+  - destruct (bct_rev (rev s) (rev target)) eqn:E; [|reflexivity].
+    apply bct_rev_len in E. rewrite !rev_length in E. lia.
+  - pose proof (bcast_to_rev_spec (rev s) (rev target)) as H. rewrite !rev_length in H. specialize (H ltac:(lia)).
+    destruct (bct_rev (rev s) (rev target)).
+    + destruct H as [H1 H2]. rewrite H1. cbn. rewrite H2. cbn. rewrite rev_involutive. reflexivity.
+    + rewrite H. reflexivity.
 Qed.
-
-Theorem validator_broadcast_to_refuted_proof :
-  exists s target : list Z,
-    np_broadcast_to s target = None /\ exists t, v_broadcast_shape true s target = Ok t.
-Proof. exists [2; 3], [3]. split; [reflexivity|]. exists [2; 3]. reflexivity. Qed.
 
 (* ---------------------------------------------------------------- tensordot *)
 Lemma td_extents_equal_spec ea eb :
@@ -373,11 +386,11 @@ Proof.
   unfold caxes_ok, v_check_caxes, sv_check_compressed_axes, caxes_val. cbn.
   rewrite map_length.
   destruct (Z.eqb_spec (Z.of_nat (length l)) ndim); cbn; [split; congruence|].
-  unfold ext_set_order_equal. rewrite ints_of_map_VInt. cbn.
-  destruct (strictly_incr l); cbn; [|split; congruence].
   assert (Hint : forallb isinst_integral (map VInt l) = true).
   { clear. induction l; cbn; auto. }
   rewrite Hint. cbn.
+  unfold ext_sorted_set_equal. rewrite ints_of_map_VInt. cbn.
+  destruct (strictly_incr l); cbn; [|split; congruence].
   destruct l as [|a r]; cbn [zmin_list zmax_list bind]; [cbn; split; congruence|].
   cbn [negb andb].
   pose proof (range_test_spec a r ndim) as Hr.
@@ -522,11 +535,6 @@ Proof.
 Qed.
 
 (* ---------------------------------------------------------------- all modelled operations at once *)
-Lemma bct_rev_len a b : bct_rev a b = true -> (length a <= length b)%nat.
-Proof.
-  revert b; induction a as [|x a IH]; intros [|y b]; cbn; try discriminate; try lia.
-  rewrite andb_true_iff. intros [_ H]. specialize (IH b H). lia.
-Qed.
 
 (* valid arguments (NumPy accepts): the generated validators raise nothing at all — in particular no
    internal class (OtherError / OverflowError / ZeroDivisionError / TypeError from the translated code) *)
@@ -540,9 +548,8 @@ Proof.
   - rewrite (proj1 (validator_check_index_spec_proof i dim) H). reflexivity.
   - rewrite (proj1 (validator_reshape_spec_proof size sh) H). reflexivity.
   - pose proof (validator_broadcast_spec_proof s1 s2) as S. destruct (np_broadcast s1 s2); [rewrite S; reflexivity|discriminate].
-  - pose proof (validator_broadcast_to_partial_proof s target) as S. unfold np_broadcast_to in *.
-    destruct (bct_rev (rev s) (rev target)) eqn:E; [|discriminate].
-    apply bct_rev_len in E. rewrite !rev_length in E. rewrite (S E). reflexivity.
+  - pose proof (validator_broadcast_to_spec_proof s target) as S.
+    destruct (np_broadcast_to s target); [rewrite S; reflexivity|discriminate].
   - rewrite (proj1 (validator_tensordot_spec_proof ea eb) H). reflexivity.
   - rewrite (proj1 (validator_coo_init_spec_proof ndata ncols nshape nrows)); [reflexivity|].
     apply negb_true_iff in H. exact H.
@@ -550,14 +557,12 @@ Proof.
   - apply Z.eqb_eq in H. rewrite (proj1 (validator_dot_1d_spec_proof la lb) H). reflexivity.
 Qed.
 
-(* invalid arguments: a clean class, before anything else (see rejection_precedes_kernels) — except
-   broadcast_to with an operand of more axes than the target (validator_broadcast_to_refuted) *)
+(* invalid arguments: a clean class, before anything else (see rejection_precedes_kernels) *)
 Theorem invalid_args_clean_rejection_proof :
   forall m : vop, vop_np_accepts m = false ->
-    (forall s target, m = MBroadcastTo s target -> (length s <= length target)%nat) ->
     exists e, model_verdict m = Some (Some e) /\ clean e = true.
 Proof.
-  intros m H Hb. destruct m; cbn [vop_np_accepts model_verdict] in *; try discriminate.
+  intros m H. destruct m; cbn [vop_np_accepts model_verdict] in *; try discriminate.
   - rewrite (normalize_axis_bad _ _ H). eexists; split; reflexivity.
   - rewrite (normalize_axes_bad _ _ H). eexists; split; reflexivity.
   - rewrite (proj2 (validator_transpose_spec_proof axes ndim) H). eexists; split; reflexivity.
@@ -565,7 +570,7 @@ Proof.
   - rewrite (proj2 (validator_reshape_spec_proof size sh) H). eexists; split; reflexivity.
   - pose proof (validator_broadcast_spec_proof s1 s2) as S. destruct (np_broadcast s1 s2); [discriminate|].
     rewrite S. eexists; split; reflexivity.
-  - pose proof (validator_broadcast_to_partial_proof s target (Hb s target eq_refl)) as S.
+  - pose proof (validator_broadcast_to_spec_proof s target) as S.
     destruct (np_broadcast_to s target); [discriminate|]. rewrite S. eexists; split; reflexivity.
   - rewrite (proj2 (validator_tensordot_spec_proof ea eb) H). eexists; split; reflexivity.
   - rewrite (proj2 (validator_coo_init_spec_proof ndata ncols nshape nrows)); [eexists; split; reflexivity|].
@@ -582,7 +587,7 @@ Example validators_nonvacuous :
   v_reshape_check 6 [4] = Raise ValueError /\
   v_broadcast_shape false [2; 1; 3] [5; 1] = Ok [2; 5; 3] /\
   v_broadcast_shape false [2; 3] [4] = Raise ValueError /\
-  v_broadcast_shape true [1; 3] [2; 2; 3] = Ok [2; 2; 3] /\
+  v_broadcast_shape true [1; 3] [2; 2; 3] = Ok [2; 2; 3] /\ v_broadcast_shape true [2; 3] [3] = Raise ValueError /\
   v_tensordot_check [3] [0] = Raise ValueError /\ v_tensordot_shortcut 3 = Ok false /\
   v_coo_init 2 3 1 1 = Raise ValueError /\
   v_check_caxes 3 (Some [0; 2]) = Ok VNone /\ v_check_caxes 3 (Some [2; 0]) = Raise ValueError.
